@@ -31,7 +31,7 @@ ARRAY_BAD = ['nonstr', 'data_list', 'data_1d', 'data_3d', 'pos_badtype', 'spec_b
 # ---------------------------------------------------------------- generation
 def _gen_array(rng, i):
     while True:
-        ds = gen.gen_dataset(rng, max_dims=3, max_size=4, dtypes=('f8', 'f4', 'i4'))
+        ds = gen.gen_dataset(rng, max_dims=3, max_size=4, dtypes=('f8', 'f4', 'i4'), long_prob=0.12)
         if gen.n_points(ds['pos']) * gen.n_points(ds['spec']) <= 300:
             break
     bad = []
